@@ -40,7 +40,12 @@ trusted_base = [
   "section of gammatone.sampled (a degree 2*eta-1 numerator evaluated near DC with cancellation, measured 1.3e-6) "
   "gets 1e-5. A design error smaller than these bounds is not detected.",
   "enclosure goals are decided by the `interval` tactic (CoqInterval, 100-bit interval arithmetic, primitive "
-  "63-bit integers) inside Coq; the float is passed as its exact rational value (float.as_integer_ratio)",
+  "63-bit integers) inside Coq and closed with Qed; the float is passed as its exact rational value "
+  "(float.as_integer_ratio). The generated lemmas (build/C13/encl_*.v) depend on the four stdlib real-number axioms "
+  "plus the 51 Uint63.* / PrimInt63.* primitive-integer axioms of Coq's standard library; the theorems of Prop.v / "
+  "Prop2.v depend only on the four real-number axioms (no numerical tactic in their proofs)",
+  "gammatone.sampled first section: the iterated derivative of the model is replaced by closed forms for eta = 2, 3, 4 "
+  "(Sampled.v, proved by ring) before the enclosure; other eta are enclosed by plain unfolding (eta = 1 only)",
   "design parameters are the doubles nearest to k/1000; the model is evaluated at the exact value of that double",
   "math.cos/sin/exp/sqrt of the platform libm are what the library calls; their error is inside the tolerance",
   "resonant frequency of resonator.freq_poles_exp / freq_z_exp is computed by the harness as math.acos(...) "
@@ -496,6 +501,13 @@ ERB_K = {"gm90": [24.7, 4.37e-3, 0.0], "mg83": [6.23e-6, 93.39e-3, 28.52]}
 
 def gen_erb(tier, rng):
   n = 30 if tier == "quick" else 300
+  for which in ("gm90", "mg83"):   # edges: smallest / largest frequencies, both unit conventions
+    for f in (Fraction(7), Fraction(15, 2), Fraction(20000)):
+      yield {"which": which, "freq": fr(f), "hz": None, "tags": [which, "Hz", "edge"]}
+    for rate in (8000, 44100):
+      for k in (1, 2, 3140):
+        yield {"which": which, "freq": fr(Fraction(grid_param(k))), "hz": fr(Fraction(2 * math.pi / rate)),
+               "tags": [which, "rad/sample", "edge"]}
   for i in range(n):
     which = "gm90" if i % 2 == 0 else "mg83"
     if rng.random() < 0.3:
@@ -636,7 +648,8 @@ def make_misc_goals(tier, rng):
                   "verdict (comb_tau_alpha %d (Some %s)) %s %s" % (delay, rlit(Fraction(tau)), rlit(alpha), rlit(TOL)), "c13_decide"))
   for delay in (1, 7):
     f = audiolazy.comb.tau(delay)
-    alpha = -Fraction(f.denlist[delay])
+    den = f.denlist
+    alpha = -Fraction(den[delay]) if len(den) > delay else Fraction(0)
     goals.append(("holds", {"case": {"design": "comb.tau", "delay": delay, "tau": "inf"}, "contract": "alpha = 1 for tau = inf",
                             "library_alpha": float(alpha)},
                   "verdict (comb_tau_alpha %d None) %s %s" % (delay, rlit(alpha), rlit(TOL)), "c13_decide"))
@@ -694,7 +707,7 @@ def run_goal_files(chk, goals):
 
 def extra(chk, tier, rng):
   goals = make_goals(tier, rng) + make_misc_goals(tier, rng)
-  limit = 450 if tier == "quick" else 4500
+  limit = 450 if tier == "quick" else 3600
   if len(goals) > limit:
     # keep every 'holds' goal, thin out the coefficient goals deterministically
     holds = [g for g in goals if g[0] == "holds"]
